@@ -44,7 +44,10 @@ type Model struct {
 	Why   string          // first rejection reason of the last evaluation
 	// MinSized: the program was generated with --min-sized-ints (affects nothing in TRUE mode).
 	MinSized bool
-	leaks    map[string]map[string][]leak // see mergeLeaks
+	// EnumNullJudged: C08's statement quantifies over values of every JSON type, null included ("accepted iff JSON-equal to a
+	// listed value"); the other statements leave null at a non-nullable position undefined. Set by C08 only.
+	EnumNullJudged bool
+	leaks          map[string]map[string][]leak // see mergeLeaks
 }
 
 // New builds a model from schema texts.
@@ -269,6 +272,15 @@ func (m *Model) valid(sn any, v any, p Pos) Verdict {
 		case has(tl, "null"):
 			return Accept
 		}
+		if hasEnum && m.EnumNullJudged && !(p.Kind == "prop" && p.Optional) {
+			// null reaches the enum itself (required property, array item, map value, root) and is not listed
+			if m.dev("NULL_ENUM_ZERO_MEMBER_ACCEPTED") && enumListsZero(enum) {
+				// as built: null is decoded into the Go zero value of the enum's carrier type, which is then looked up in the table
+				m.fire("NULL_ENUM_ZERO_MEMBER_ACCEPTED")
+				return Accept
+			}
+			return m.reject(p, "null is not in enum")
+		}
 		if p.Kind == "prop" && p.Optional {
 			_, hasDefault := s["default"]
 			nn := nonNullTypes(tl)
@@ -291,7 +303,26 @@ func (m *Model) valid(sn any, v any, p Pos) Verdict {
 				if len(nn) == 1 && !m.typeOK(nn[0], v) {
 					break
 				}
-				return Accept
+				// a listed value still has to satisfy the other keywords stated next to the enum
+				c := Accept
+				saveWhy := m.Why
+				switch x := v.(type) {
+				case string:
+					if constrained("string", s) {
+						c = m.str(s, x, p)
+					}
+				default:
+					if jsonv.Kind(v) == "number" && constrained("numeric", s) {
+						c = m.numeric(s, v, p, len(nn) == 1 && nn[0] == "integer")
+					}
+				}
+				if c == Reject && m.dev("ENUM_SIBLING_CONSTRAINTS_IGNORED") {
+					// as built: an enum type gets the membership check only; bounds, length limits and pattern stated next to it are dropped
+					m.fire("ENUM_SIBLING_CONSTRAINTS_IGNORED")
+					m.Why = saveWhy
+					return Accept
+				}
+				return c
 			}
 		}
 		return m.reject(p, "not in enum")
@@ -602,6 +633,16 @@ func (m *Model) numeric(s S, v any, p Pos, isInt bool) Verdict {
 		q := new(big.Rat).Quo(x, mo)
 		trueOK := q.IsInt()
 		ok := trueOK
+		if isInt && !mo.IsInt() && x.IsInt() && m.dev("INT_MULTIPLEOF_TRUNCATED") {
+			// as built: the divisor of an integer is converted to an integer type (2.5 becomes 2) before the % check is emitted
+			mf, _ := mo.Float64()
+			if t := int64(mf); t != 0 {
+				ok = new(big.Int).Rem(x.Num(), big.NewInt(t)).Sign() == 0
+				if ok != trueOK {
+					m.fire("INT_MULTIPLEOF_TRUNCATED")
+				}
+			}
+		}
 		if !isInt && m.dev("FLOAT_MULTIPLEOF_TOLERANCE") {
 			xf, _ := x.Float64()
 			mf, _ := mo.Float64()
@@ -670,8 +711,26 @@ func intKey(s S, key string) (int, bool) {
 }
 
 func (m *Model) str(s S, v string, p Pos) Verdict {
-	if _, isFmt := s["format"].(string); isFmt {
-		return Accept // format values are drawn from valid examples only
+	if f, isFmt := s["format"].(string); isFmt {
+		// format values are drawn from valid examples only; length limits and pattern stated next to the format still apply to the text
+		if !formatTypes[f] || !constrained("string", s) {
+			return Accept
+		}
+		ok := m.lenOK(s, utf8.RuneCountInString(v))
+		if pat, has := s["pattern"].(string); ok && has {
+			if re, err := regexp.Compile(pat); err == nil {
+				ok = re.MatchString(v)
+			}
+		}
+		if !ok {
+			if m.dev("FORMAT_STRING_CONSTRAINTS_IGNORED") {
+				// as built: the field is a time.Time / netip.Addr / types.Serializable* value; no string validator is attached to it
+				m.fire("FORMAT_STRING_CONSTRAINTS_IGNORED")
+				return Accept
+			}
+			return m.reject(p, "length / pattern of a %s string", f)
+		}
+		return Accept
 	}
 	if m.unenforced(p, "string", s) {
 		return Accept
@@ -694,7 +753,17 @@ func (m *Model) str(s S, v string, p Pos) Verdict {
 		if err != nil {
 			return Unspec
 		}
-		if !re.MatchString(v) {
+		matched := re.MatchString(v)
+		if strings.Contains(pat, "\r") && m.dev("PATTERN_CR_DROPPED") {
+			// as built: the pattern is emitted inside a raw string literal, from which Go discards carriage returns
+			if re2, err := regexp.Compile(strings.ReplaceAll(pat, "\r", "")); err == nil {
+				if m2 := re2.MatchString(v); m2 != matched {
+					m.fire("PATTERN_CR_DROPPED")
+					matched = m2
+				}
+			}
+		}
+		if !matched {
 			return m.reject(p, "pattern %s", pat)
 		}
 	}
@@ -1437,4 +1506,32 @@ func (m *Model) cyclicBranch(branches []any, p Pos) bool {
 		}
 	}
 	return false
+}
+
+// enumListsZero: the members are all of one primitive kind (the enum is carried by string / a number type / bool, not by the
+// interface{} wrapper) and the zero value of that kind ("", 0, false) is among them.
+func enumListsZero(enum []any) bool {
+	kind := ""
+	zero := false
+	for _, e := range enum {
+		k := jsonv.Kind(e)
+		if k == "null" || k == "array" || k == "object" {
+			return false
+		}
+		if kind != "" && k != kind {
+			return false
+		}
+		kind = k
+		switch k {
+		case "string":
+			zero = zero || e.(string) == ""
+		case "boolean":
+			zero = zero || e.(bool) == false
+		case "number":
+			if r := rat(e); r != nil && r.Sign() == 0 {
+				zero = true
+			}
+		}
+	}
+	return zero
 }
